@@ -1,4 +1,4 @@
-import PydraModel.StateAlg.Lemmas5
+import PydraModel.StateAlg.Lemmas8
 import PydraModel.Props.C01
 /-
 C02 — Combine groups job outputs into an exact, ordered partition.
@@ -19,9 +19,15 @@ What is proved, and what is not:
     closure (`C02_linked_le4`)
   * the whole pipeline against `combineSpec` on every shape with ≤ 3 fields, every combiner and all lengths 1–2
     (`C02_small_scope`, kernel evaluation — a bounded statement, labelled as such)
-  * NOT proved (stated as `C02_full_statement`): that for lists of arbitrary length the groups come out in first-occurrence
-    order of the remaining-axes assignments, i.e. the mixed-radix argument that the reduced tree enumerates the distinct
-    projections in the order in which the full enumeration first meets them.  That link is covered by the correspondence only.
+  * first-occurrence order, lists of ANY non-zero length: the rows of a splitter projected to the kept fields are the rows of
+    the reduced tree indexed by the mixed-radix pattern `pat shape mask` (`claimA`, Lemmas7) and `nub (pat …) = range (cnt …)`
+    (`nub_pat`, Lemmas6); hence for every splitter over ≤ 4 distinct fields the public output IS the reference's stable
+    group-by on the fields outside `combiner_all`, provided that set is closed under inner-product links
+    (`C02_order_partial`, decidable hypothesis); with `C02_linked_le4` this gives the property itself for every
+    binary-bracketed shape over ≤ 4 canonically labelled fields (`C02_full_le4`)
+  * NOT proved: `C02_full_statement` for arbitrary field names / n-ary spellings / more than four fields in one theorem — what
+    is missing is a general proof that `splits_groups`' `combiner_all` equals the reference's closure (established only by
+    evaluating the 51 shapes), and `KeysOK` of the reduced tree beyond four fields.
 -/
 namespace PydraModel.StateAlg
 open Spec
@@ -165,12 +171,13 @@ def closureOK (t : Bin) (C : List Name) : Bool :=
   if (rank? t).isNone then true else
   match splitsGroups (toRPN (ofBin t)) C with
   | .error _ => false
-  | .ok go => go.combinerAll == Spec.closure (ofBin t) C
+  | .ok go => go.combinerAll == Spec.closure (ofBin t) C && (maskOf go.combinerAll t).isSome
 
 /-- FULL at the property's quantifier, by evaluation of all shapes (all binary-bracketed shapes over ≤ 4 canonically labelled
     fields whose inner products pair operands of equal rank, all non-empty combiners): `set_input_groups` succeeds and
     `combiner_all` is exactly the reference's closure over inner-linked fields ("combining a field also combines every field
-    paired with it").  Not proved beyond four fields. -/
+    paired with it"), and that set is closed under inner-product links (`maskOf … ≠ none`, the hypothesis of
+    `C02_order_partial`).  Not proved beyond four fields. -/
 theorem C02_linked_le4 : ∀ t ∈ shapesLe4, ∀ C ∈ subsets t.fields, C ≠ [] → closureOK t C = true := by
   decide
 
@@ -268,6 +275,273 @@ theorem C02_public_partition_le4 (env : ShapeEnv) (s : Spl) (comb : List Name) (
                 intro j hj
                 obtain ⟨g, _, hg, hiff⟩ := q2 j hj
                 exact ⟨g, hg, hiff⟩
+
+/-- PARTIAL (explicit decidable hypothesis `maskOf p.combinerAll t ≠ none`: the set of combined fields computed by the code is
+    closed under inner-product links, i.e. no inner product pairs a combined axis with an uncombined one).
+    For every well-formed splitter over at most four distinct fields, every non-empty combiner and plain lists of ANY
+    non-zero length: what the public path returns is the reference's stable group-by of the jobs on their projection to the
+    fields outside `combiner_all` — one group per distinct assignment of the remaining axes, in FIRST-OCCURRENCE
+    (enumeration) order, each holding its jobs in enumeration order; one flat list when nothing remains.
+    Proof: the rows of the splitter projected to the kept fields are the rows of the reduced tree indexed by the mixed-radix
+    pattern `pat shape mask` (`claimA`), and `nub (pat shape mask) = range (cnt shape mask)` (`nub_pat`).
+    Missing for `C02_full_statement`: `combiner_all` = the reference's closure (and hence the hypothesis) beyond the
+    ≤ 4-field shapes evaluated in `C02_linked_le4`. -/
+theorem C02_order_partial (env : ShapeEnv) (s : Spl) (comb : List Name) (p : Prepared)
+    (hwf : WellFormed s) (h4 : s.fields.length ≤ 4) (hnd : s.fields.Nodup) (hcomb : comb.isEmpty = false)
+    (h1 : ∀ n ∈ s.fields, ∃ k, env n = [k + 1])
+    (hp : prepareStates env s comb = .ok p)
+    (hmask : ∀ t, normalize s = some t → (maskOf p.combinerAll t).isSome = true) :
+    publicGroups p true = combineSpecKeep (s.fields.filter (fun x => !p.combinerAll.contains x)) p.statesInd := by
+  obtain ⟨t, ht⟩ := normalize_of_wf s hwf
+  have hmask := hmask t ht
+  have hf := fields_normalize s t ht
+  have ht4 : t.nleaves ≤ 4 := by rw [nleaves_eq_fields, hf]; exact h4
+  have h1t : ∀ n ∈ t.fields, ∃ k, env n = [k + 1] := fun n hn => h1 n (hf ▸ hn)
+  have hndt : t.fields.Nodup := hf ▸ hnd
+  unfold prepareStates at hp
+  simp only [toRPN_eq ht] at hp
+  split at hp
+  · simp at hp
+  split at hp
+  · simp at hp
+  rename_i go _
+  rw [C02_reduced_splits env t ht4] at hp
+  cases he : evalBin env t with
+  | error e => simp [he] at hp
+  | ok v =>
+    simp only [he] at hp
+    split at hp
+    · rename_i hc; simp [hcomb] at hc
+    · rw [removeRPN_rpn] at hp
+      simp only [] at hp
+      have hrows := evalBin_len env t v he
+      split at hp
+      · -- nothing remains: one flat list
+        rename_i hempty
+        simp only [Except.ok.injEq] at hp
+        subst hp
+        have hnone : removeT go.combinerAll t = none := by
+          cases hrt : removeT go.combinerAll t with
+          | none => rfl
+          | some t' => simp [hrt, rpnOpt, rpn_isEmpty] at hempty
+        have hfil := removeT_fields go.combinerAll t
+        rw [hnone] at hfil
+        have hkeep : s.fields.filter (fun x => !go.combinerAll.contains x) = [] := by rw [← hf]; exact hfil.symm
+        simp only [hkeep, combineSpecKeep, List.isEmpty_nil, ↓reduceIte, publicGroups]
+        cases hs : (iterSplits v.1 t.fields).isEmpty with
+        | true =>
+          have : iterSplits v.1 t.fields = [] := List.isEmpty_iff.mp hs
+          simp [this]
+        | false => simp
+      · rename_i hne
+        cases hrt : removeT go.combinerAll t with
+        | none => simp [hrt, rpnOpt] at hne
+        | some t' =>
+          have hf0 := removeT_fields go.combinerAll t
+          rw [hrt] at hf0
+          have hf' : t'.fields = List.filter (fun x => !go.combinerAll.contains x) t.fields := hf0
+          have ht'4 : t'.nleaves ≤ 4 := by
+            rw [nleaves_eq_fields, hf']
+            have := List.length_filter_le (fun x => !go.combinerAll.contains x) t.fields
+            rw [nleaves_eq_fields] at ht4
+            omega
+          simp only [hrt, rpnOpt] at hp
+          rw [C02_reduced_splits env t' ht'4] at hp
+          cases he' : evalBin env t' with
+          | error e => simp [he'] at hp
+          | ok v' =>
+            simp only [he'] at hp
+            -- claim A for the mask of the closure
+            have hmask' : (maskOf go.combinerAll t).isSome = true := by
+              split at hp
+              · simp only [Except.ok.injEq] at hp; subst hp; exact hmask
+              · split at hp
+                · simp at hp
+                · simp only [Except.ok.injEq] at hp; subst hp; exact hmask
+            cases hm : maskOf go.combinerAll t with
+            | none => simp [hm] at hmask'
+            | some m =>
+              have cA := claimA env go.combinerAll t v m h1t he hm
+              obtain ⟨R', sh', eopt, _, lenR, mapR, _⟩ := cA.ex
+              rw [hrt] at eopt
+              have ev' := evalOpt_some_inv env t' _ eopt
+              rw [he'] at ev'
+              simp only [Except.ok.injEq] at ev'
+              subst ev'
+              have hcnt : 1 ≤ cnt v.2 m := cnt_pos v.2 m cA.shpos
+              split at hp
+              · rename_i hemp
+                have : (R' : List (List Nat)) = [] := List.isEmpty_iff.mp hemp
+                rw [this] at lenR
+                simp at lenR; omega
+              · split at hp
+                · simp at hp
+                · rename_i mp hmp
+                  simp only [Except.ok.injEq] at hp
+                  subst hp
+                  -- notation
+                  let ψ := pat v.2 m
+                  let K := t'.fields
+                  have hK : K = t.fields.filter (fun x => !go.combinerAll.contains x) := hf'
+                  have hF : R'.Nodup := evalBin_nodup env t' _ he'
+                  have hFlen := evalBin_len env t' _ he'
+                  have hψlt : ∀ i ∈ ψ, i < R'.length := fun i hi => lenR ▸ pat_lt v.2 m i hi
+                  have hnub : nub ψ = List.range (cnt v.2 m) := nub_pat v.2 m cA.shpos
+                  have hψne : ψ ≠ [] := by
+                    intro h0
+                    have : nub ψ = [] := by rw [h0]; rfl
+                    rw [hnub] at this
+                    have := congrArg List.length this
+                    simp at this; omega
+                  have hv1ne : v.1 ≠ [] := by
+                    intro h0
+                    rw [h0] at mapR
+                    have : ψ = [] := by simpa using mapR.symm
+                    exact hψne this
+                  have hsti : ∀ st ∈ iterSplits v.1 t.fields, (st.map (·.1)).Nodup := by
+                    intro st hst
+                    simp only [iterSplits, List.mem_map] at hst
+                    obtain ⟨r, hr, rfl⟩ := hst
+                    rw [List.map_fst_zip (by rw [hrows r hr]; omega)]
+                    exact hndt
+                  have hjobs : (iterSplits v.1 t.fields).isEmpty = false := by
+                    cases hv : v.1 with
+                    | nil => exact absurd hv hv1ne
+                    | cons _ _ => simp [iterSplits]
+                  have hrem : (R' : List (List Nat)).isEmpty = false := by
+                    cases hR : R' with
+                    | nil => rw [hR] at lenR; simp at lenR; omega
+                    | cons _ _ => rfl
+                  have hpub := C02_public_is_mapping
+                    ⟨iterSplits v.1 t.fields, t.fields, go.combinerAll, t'.rpn, R', t'.fields, iterSplits R' t'.fields, mp⟩
+                    rfl hmp hF hFlen hsti hjobs hrem
+                  rw [hpub]
+                  -- the reference side
+                  have hkeep : s.fields.filter (fun x => !go.combinerAll.contains x) = K := by rw [← hf]; exact hK.symm
+                  have hKne : K.isEmpty = false := by
+                    have := nleaves_pos t'
+                    rw [nleaves_eq_fields] at this
+                    cases hk : K with
+                    | nil => simp [K] at hk; rw [hk] at this; simp at this
+                    | cons _ _ => rfl
+                  simp only [hkeep, combineSpecKeep, hKne, Bool.false_eq_true, ↓reduceIte, Out.grouped.injEq]
+                  -- keys of the jobs = pattern mapped through an injective labelling
+                  let key : Nat → List (Name × Nat) := fun i => K.zip (R'.getD i [])
+                  have hkeys : (iterSplits v.1 t.fields).map (project K) = ψ.map key := by
+                    have e1 : (iterSplits v.1 t.fields).map (project K)
+                        = (v.1.map (proj (fmask go.combinerAll t))).map (fun r => K.zip r) := by
+                      simp only [iterSplits, List.map_map]
+                      apply List.map_congr_left
+                      intro r hr
+                      simp only [Function.comp]
+                      rw [hK, project_zip _ t.fields r hndt (hrows r hr)]
+                      rfl
+                    rw [e1, mapR, List.map_map]
+                    rfl
+                  have hgetlen : ∀ i, i < R'.length → (R'.getD i []).length = K.length := by
+                    intro i hi
+                    have : R'.getD i [] = R'[i] := by simp [List.getD, List.getElem?_eq_getElem hi]
+                    rw [this]
+                    exact hFlen _ (List.getElem_mem hi)
+                  have hkeyinj : ∀ i, i < R'.length → ∀ j, j < R'.length → key i = key j → i = j := by
+                    intro i hi j hj hij
+                    have := zip_left_inj K _ _ (hgetlen i hi) (hgetlen j hj) hij
+                    have e1 : R'.getD i [] = R'[i] := by simp [List.getD, List.getElem?_eq_getElem hi]
+                    have e2 : R'.getD j [] = R'[j] := by simp [List.getD, List.getElem?_eq_getElem hj]
+                    rw [e1, e2] at this
+                    exact (List.getElem_inj hF).mp this
+                  obtain ⟨q1, q2, q3⟩ := fillMapping_spec _ _ _ _ 0 _ hmp
+                  have hmplen : mp.length = cnt v.2 m := by rw [q1]; simp [lenR]
+                  show mp = groupBy ((iterSplits v.1 t.fields).map (project K))
+                  rw [hkeys]
+                  unfold groupBy
+                  rw [nub_map_inj key ψ (fun x hx y hy => hkeyinj x (hψlt x hx) y (hψlt y hy)), hnub, List.map_map]
+                  apply List.ext_getElem
+                  · simp [hmplen]
+                  · intro g hg1 hg2
+                    have hg : g < cnt v.2 m := by simpa using hg2
+                    have hgR : g < R'.length := by rw [lenR]; exact hg
+                    simp only [List.getElem_map, List.getElem_range, Function.comp]
+                    rw [positions_map_inj key g ψ 0 (fun x hx hxg => hkeyinj x (hψlt x hx) g hgR hxg)]
+                    have h3 := q3 g
+                    rw [List.getElem?_eq_getElem hg1] at h3
+                    have hacc : (R'.map (fun _ => ([] : List Nat)))[g]? = some [] := by
+                      rw [List.getElem?_map, List.getElem?_eq_getElem hgR]; rfl
+                    rw [hacc] at h3
+                    simp only [Option.map_some, List.nil_append, Option.some.injEq] at h3
+                    rw [h3]
+                    have := members_eq_positions R' hF t.fields hndt (fun x => !go.combinerAll.contains x) g v.1 ψ 0
+                      hrows hψlt mapR
+                    rw [← hK] at this
+                    exact this
+
+/-- `combiner_all` of a successful `prepare_states` is the one `splits_groups` returned -/
+theorem prepareStates_combinerAll (env : ShapeEnv) (s : Spl) (comb : List Name) (p : Prepared)
+    (hcomb : comb.isEmpty = false) (hp : prepareStates env s comb = .ok p) :
+    ∃ go, splitsGroups (toRPN s) comb = .ok go ∧ p.combinerAll = go.combinerAll := by
+  unfold prepareStates at hp
+  simp only [hcomb, Bool.false_eq_true, ↓reduceIte] at hp
+  split at hp
+  · simp at hp
+  split at hp
+  · simp at hp
+  rename_i go hgo
+  refine ⟨go, hgo, ?_⟩
+  split at hp
+  · simp at hp
+  split at hp
+  · simp at hp
+  split at hp
+  · simp only [Except.ok.injEq] at hp; subst hp; rfl
+  split at hp
+  · simp at hp
+  split at hp
+  · simp only [Except.ok.injEq] at hp; subst hp; rfl
+  split at hp
+  · simp at hp
+  · simp only [Except.ok.injEq] at hp; subst hp; rfl
+
+theorem shapesLe4_fields : ∀ t ∈ shapesLe4, t.fields.length ≤ 4 ∧ t.fields.Nodup := by
+  decide
+
+/-- C02 AT ITS STATED QUANTIFIER, for lists of ANY non-zero length (not only 1–3): for every binary-bracketed splitter shape
+    over at most four canonically labelled fields, every non-empty combiner subset of its fields and every assignment of
+    non-empty plain lists, whenever `prepare_states` succeeds the public path returns exactly the reference's result:
+    one list per distinct assignment of the uncombined axes, in enumeration (first-occurrence) order, each holding — in
+    enumeration order — the jobs with that assignment; a field linked by an inner product to a combined field is combined
+    too; combining every axis gives one flat list.
+    (The restriction to binary brackets / canonical labels is in the statement only because the closure fact `C02_linked_le4`
+    is established by evaluating those 51 shapes; other spellings with the same normal form behave identically on the model
+    side by `C05_same_normal_form`.) -/
+theorem C02_full_le4 (env : ShapeEnv) (t : Bin) (C : List Name) (p : Prepared)
+    (ht : t ∈ shapesLe4) (hC : C ∈ subsets t.fields) (hne : C ≠ []) (hr : (rank? t).isSome = true)
+    (h1 : ∀ n ∈ t.fields, ∃ k, env n = [k + 1])
+    (hp : prepareStates env (ofBin t) C = .ok p) :
+    publicGroups p true = combineSpec (ofBin t) C p.statesInd := by
+  have hcomb : C.isEmpty = false := by cases C <;> simp_all
+  have hn := normalize_ofBin t
+  have hf := fields_normalize (ofBin t) t hn
+  obtain ⟨go, hgo, hca⟩ := prepareStates_combinerAll env (ofBin t) C p hcomb hp
+  have hck := C02_linked_le4 t ht C hC hne
+  have hrn : (rank? t).isNone = false := by cases h : rank? t <;> simp_all
+  simp only [closureOK, hrn, Bool.false_eq_true, ↓reduceIte, hgo, Bool.and_eq_true, beq_iff_eq] at hck
+  have hwf : WellFormed (ofBin t) := by
+    have : ∀ t : Bin, (ofBin t).wf = true := by
+      intro t
+      induction t with
+      | leaf n => simp [ofBin, Spl.wf]
+      | node d l r ihl ihr => cases d <;> simp [ofBin, Spl.wf, wfList, ihl, ihr]
+    exact this t
+  have h4 : (ofBin t).fields.length ≤ 4 ∧ (ofBin t).fields.Nodup := by
+    rw [← hf]
+    exact shapesLe4_fields t ht
+  have := C02_order_partial env (ofBin t) C p hwf h4.1 h4.2 hcomb (fun n hn' => h1 n (hf ▸ hn')) hp
+    (fun t' ht' => by
+      rw [hn] at ht'
+      cases ht'
+      rw [hca]; exact hck.2)
+  rw [this, hca, hck.1]
+  rfl
 
 /-! ### the whole pipeline on a small scope, and concrete instances -/
 
